@@ -1,7 +1,7 @@
 //! Engine D (DESIGN.md §3 C14, C15): complete finite input universes x every impl x every
 //! representation, compared with `[u8]` semantics / independent parsers.
 use crate::reps::{bytes_reps, bytesmut_reps, leak};
-use bytes::{Bytes, BytesMut};
+use bytes::{Buf, Bytes, BytesMut};
 use oracle::report::Report;
 use std::borrow::Borrow;
 use std::cmp::Ordering;
@@ -238,6 +238,69 @@ pub fn run_c14(tier: &str, parity_odd: bool, rep: &mut Report) {
                 }
             }
             let _ = (&vx, sx);
+            // --- aliased operands: y held as a *view into the very buffer that holds x*
+            // (same start address with a different length, overlapping ranges, empty
+            // handles that keep the buffer's address)
+            if y.len() <= x.len() {
+                for a in 0..=(x.len() - y.len()) {
+                    if x[a..a + y.len()] != y[..] {
+                        continue;
+                    }
+                    for (_name, b) in bx.iter() {
+                        let b: &Bytes = b;
+                        let views: Vec<Bytes> = oracle::subject(|| {
+                            let mut v = vec![b.slice(a..a + y.len())];
+                            let mut c = b.clone();
+                            c.truncate(a + y.len());
+                            c.advance(a);
+                            v.push(c);
+                            if y.is_empty() {
+                                let mut c = b.clone();
+                                // an empty handle that keeps an address inside the buffer
+                                v.push(if a == 0 {
+                                    c.split_to(0)
+                                } else {
+                                    c.truncate(a);
+                                    c.split_off(a)
+                                });
+                            }
+                            v
+                        });
+                        for yv in views.iter() {
+                            cx.ord("Bytes vs Bytes (aliased views)", b, yv, x, y);
+                            cx.ord("Bytes vs Bytes (aliased views)", yv, b, y, x);
+                            cx.rep.evaluations += 2;
+                            if oracle::subject(|| b.cmp(yv)) != x.cmp(y) {
+                                cx.fail("Ord for Bytes (aliased views)", "cmp", format!("{:?}", b.cmp(yv)), format!("{:?}", x.cmp(y)));
+                            }
+                            if oracle::subject(|| rec(yv)) != rec(&y[..]) {
+                                cx.fail("Hash for Bytes (aliased views)", "hash", "different write sequence".into(), "that of [u8]".into());
+                            }
+                            for (_n2, m2) in my.iter() {
+                                cx.eq_only("Bytes view vs BytesMut (eq)", yv, m2, y, y);
+                            }
+                        }
+                        oracle::subject(|| drop(views));
+                    }
+                    // BytesMut halves of one buffer: adjacent, never overlapping
+                    if a == 0 && y.len() < x.len() {
+                        let (head, tail) = oracle::subject(|| {
+                            let mut m = BytesMut::from(&x[..]);
+                            let head = m.split_to(y.len());
+                            (head, m)
+                        });
+                        cx.ord("BytesMut vs BytesMut (split halves)", &head, &tail, y, &x[y.len()..]);
+                        cx.ord("BytesMut vs BytesMut (split halves)", &tail, &head, &x[y.len()..], y);
+                        let fh = oracle::subject(|| head.clone().freeze());
+                        cx.eq_only("Bytes vs BytesMut (eq)", &fh, &tail, y, &x[y.len()..]);
+                        oracle::subject(|| {
+                            drop(fh);
+                            drop(head);
+                            drop(tail);
+                        });
+                    }
+                }
+            }
             // Borrow-keyed maps behave: a map keyed by the crate type is found by &[u8]
             if x == y {
                 let mut hm: HashMap<Bytes, u8> = HashMap::new();
@@ -400,6 +463,16 @@ fn c15_universe(tier: &str) -> Vec<Vec<u8>> {
                 v.push(vec![a, b]);
                 v.push(vec![b, a]);
             }
+        }
+    }
+    // longer strings: every length up to 80 and a spread beyond (formatters that work in
+    // blocks), with a position-coded pattern and with an all-escapes pattern
+    let mut lens: Vec<usize> = (5..=80).collect();
+    lens.extend([96usize, 100, 127, 128, 129, 200, 255, 256, 257, 300, 1000]);
+    for &n in &lens {
+        v.push((0..n).map(|i| (i * 37 + 11) as u8).collect());
+        if n <= 80 || tier == "thorough" {
+            v.push((0..n).map(|i| [0u8, b'"', b'\\', b'\n', 0x7f, 0xff, b'9', b'a'][i % 8]).collect());
         }
     }
     let al = [0x00u8, b'0', b'"', b'\\', b'\n', 0x7f, 0x80, b'x'];
